@@ -1,6 +1,7 @@
 package c36
 
 import (
+	"testing/synctest"
 	"sync/atomic"
 	"context"
 	"errors"
@@ -184,6 +185,11 @@ type scenario struct {
 	// foreign: one more resolver attaches / removes a value that is not an
 	// srpc.Invoker to the lookup ("addf" / "remf"); it is no provider.
 	foreign bool
+	// joinExisting: before the remote lookup starts, an equivalent
+	// LookupRpcService directive is already referenced on the bus, provider 1
+	// is attached to it and a resolver is still busy: the server's directive
+	// is de-duplicated onto it and the provider is replayed synchronously.
+	joinExisting bool
 }
 
 type sys struct {
@@ -199,6 +205,7 @@ type sys struct {
 	retErr     error
 
 	prov  []*resCtrl // resolver-level providers
+	preRef directive.Reference
 	forn  *resCtrl   // resolver attaching a non-invoker value
 	hasF  bool
 	rels  []func()   // controller-level providers: release funcs (nil = absent)
@@ -251,6 +258,26 @@ func newSys(sc scenario) *sys {
 	}
 	add(s.idler)
 
+	if sc.joinExisting {
+		_, ref, err := b.AddDirective(bifrost_rpc.NewLookupRpcService("svc", "srv"), nil)
+		if err != nil {
+			evid.Fatal("AddDirective (pre-existing lookup): %v", err)
+		}
+		s.preRef = ref
+		synctest.Wait()
+		h := s.prov[0].handler()
+		if h == nil {
+			evid.Fatal("pre-existing lookup: provider resolver not running")
+		}
+		id, ok := h.AddValue(s.prov[0].val)
+		if !ok {
+			evid.Fatal("pre-existing lookup: AddValue rejected")
+		}
+		s.prov[0].valID = id
+		s.has[0] = true
+		s.wantER = append(s.wantER, "E")
+		synctest.Wait()
+	}
 	var sctx context.Context
 	sctx, s.strmCancel = context.WithCancel(s.ctx)
 	s.strm = &recStream{ctx: sctx, held: sc.backpressure, gate: make(chan struct{})}
@@ -761,6 +788,8 @@ func TestC36(t *testing.T) {
 		{name: "controller-providers", nprov: 2, ctrlLevel: true},
 		{name: "resolver-provider/slow-remote", nprov: 1, backpressure: true},
 		{name: "resolver-provider/plus-non-invoker-value", nprov: 1, foreign: true},
+		{name: "resolver-providers/lookup-joins-existing-busy-directive", nprov: 2, joinExisting: true},
+		{name: "resolver-providers/lookup-joins-existing-idle-directive", nprov: 2, joinExisting: true, idlerStartsIdle: true},
 	}
 	if !run.Quick() {
 		depth = 12
